@@ -45,7 +45,7 @@ CHECKS = {
  'C08': dict(cat='proof', technique='Lean 4 theorems over models regenerated from simulator.py/cmiosimulator.py by an AST translator (generic tactic per closure; induction over runs; kernel enumeration for masks) + per-slot differential validation of the translation against 4 real simulators',
    text='ROM preservation and T-monotonicity are proved for every closure with any arguments, any state, any lawful memory, and lifted to runs of any length for both Python simulators '
         '(48K list memory and the 128K Memory+PagingTracer model). The range invariant (all registers/cells/state fields) is proved for every closure (generic tactics, no closure-specific proof text), lifted to steps and runs of any length. 128K paging: refinement to "mapping = f(last accepted write)", lock absorbing, one-bank writes, visible slots, decode mask = A15/A1 over all 65536 ports. '
-        'C simulators: differential execution against the model (all 1792 slots) and program-level oracle only.',
+        'C simulators: Props/C08C.lean (5 theorems) lifts ROM preservation, the range invariant and clock monotonicity to runs of any length of the C handler bodies translated from c/csimulator.c on every run (corollaries of C06\'s c_run_eq_python; hypotheses: the 64-bit clock does not wrap and, on 128K, a tracer is attached); the C paging latch is covered by Z80 programs writing port histories on all four simulators (e2e) and by C06\'s per-slot correspondence, the C run loops differentially.',
    note=TB + 'translator py2lean.py/cdispatch.py trusted but validated each run (all slots x random boundary states, 4 implementations); Mem128 hand model tied by correspondence', ref='§8 C08'),
  'C15': dict(cat='proof', technique='Lean 4 theorems (induction over byte strings / tile rows; decide over 256-entry tables) + model/implementation correspondence on pre-zlib scanlines + e2e with an independent PNG/APNG decoder and renderer',
    text='32 theorems: table-driven CRC = bit-serial CRC-32 for all byte strings; chunk framing and whole-file structure (IHDR/PLTE/tRNS/acTL/fcTL/IDAT/fdAT/IEND order, sequence numbers); '
